@@ -837,10 +837,13 @@ func genAllArgsCons(ctx TaggedStructContext, genMethod fp.Set[string]) fp.Set[st
 		}).MakeString(",\n")
 
 		valueType := ts.Info.TypeStr(w, workingPackage)
+		if fields != "" {
+			fields = fields + ","
+		}
 		fmt.Fprintf(w, `
 			func %s%s(%s) %s {
 				return %s {
-					%s,
+					%s
 				}
 			}
 		`, fnName, ts.Info.TypeParamDecl(w, workingPackage), tp, valueType,
